@@ -257,8 +257,12 @@ impl Check for C14C {
                 max_creations: 1,
                 names: &["n"],
                 values: &["w"],
+            chardata: &[],
+            chardata_extra: 0,
+            chardata_full: true,
+            attach_only: false,
             },
-            monitors: Monitors { tree: false, spec: false, order: true },
+            monitors: Monitors { tree: false, spec: false, order: true, chardata: false, serial: false },
             frontier,
             expand: stage != format!("bfs{}", depth - 1),
             order_queries: QUERIES,
